@@ -1,0 +1,15 @@
+//go:build verif
+
+package main
+
+// Contracts read by /verif/bin/govc (contract-based deductive verification; see /verif/DESIGN.md).
+// Comments only; compiled only under the build tag "verif".
+
+//@ func parseType(schemaType) -> res
+//@   ensures schemaType == IntegerType ==> res == "int64"
+//@   ensures schemaType == FloatType ==> res == "float64"
+//@   ensures schemaType != IntegerType && schemaType != FloatType ==> res == schemaType
+
+// Every run on the same input must produce the same bytes: nothing may be emitted from inside a loop over a map.
+//@ func mustGenerateTypeDef(schema) -> res
+//@   deterministic
